@@ -45,9 +45,45 @@ def _forall_items(seq, pred):
     return all(pred(x) for x in seq)
 
 
+def dhead(d):
+    return next(iter(d.items()))
+
+
+def dtail(d):
+    return OrderedDict(list(d.items())[1:])
+
+
+def dcons(k, v, d):
+    return OrderedDict([(k, v)] + list(d.items()))
+
+
+def dput(d, k, v):
+    r = OrderedDict(d)
+    r[k] = v
+    return r
+
+
+def dapp(a, b):
+    return OrderedDict(list(a.items()) + list(b.items()))
+
+
+def dhas(d, k):
+    return k in d
+
+
+def dwf(d):
+    return True
+
+
+def ddisj(a, b):
+    return not (set(a) & set(b))
+
+
 def base_ns(module_globals):
     ns = dict(module_globals)
     ns.update(_eq=lambda a, b: norm(a) == norm(b), implies=lambda a, b: (not a) or b, forall_items=_forall_items)
+    for k, v in dict(dapp=dapp, dhas=dhas, dhead=dhead, dtail=dtail, dcons=dcons, dput=dput, dwf=dwf, ddisj=ddisj, odict=OrderedDict).items():
+        ns.setdefault(k, v)
     return ns
 
 
